@@ -219,7 +219,7 @@ mod proofs {
 		assert!(wf(&a.level_bbox[z], z));
 	}
 
-	// harness: kind=complete why="32 levels is the constant MAX_ZOOM_LEVEL" tier=thorough props=C15,C03,C08 fn=TileBBoxPyramid::include_bbox,TileBBoxPyramid::include_bbox_pyramid,TileBBoxPyramid::iter_levels timeout=1800
+	// harness: kind=complete why="32 levels is the constant MAX_ZOOM_LEVEL" tier=thorough props=C15,C03,C08 fn=TileBBoxPyramid::include_bbox_pyramid,TileBBoxPyramid::iter_levels timeout=2400 mem=24
 	#[kani::proof]
 	#[kani::unwind(34)]
 	fn pyr_include_bbox_pyramid() {
@@ -232,7 +232,15 @@ mod proofs {
 			x >= o.x_min.min(n.x_min) && x <= o.x_max.max(n.x_max) && y >= o.y_min.min(n.y_min) && y <= o.y_max.max(n.y_max) };
 		assert!(has(&a.level_bbox[z], x, y) == expect);
 		assert!(wf(&a.level_bbox[z], z));
-		// single-box form
+	}
+
+	// harness: kind=complete why="32 levels is the constant MAX_ZOOM_LEVEL" tier=thorough props=C15,C03,C08 fn=TileBBoxPyramid::include_bbox timeout=1800 mem=24
+	#[kani::proof]
+	#[kani::unwind(34)]
+	fn pyr_include_bbox() {
+		let old = any_pyramid();
+		let (z, x, y) = probe();
+		let o = &old.level_bbox[z];
 		let mut c = old.clone();
 		let bb = any_wf_bbox();
 		c.include_bbox(&bb);
@@ -241,6 +249,7 @@ mod proofs {
 				x >= o.x_min.min(bb.x_min) && x <= o.x_max.max(bb.x_max) && y >= o.y_min.min(bb.y_min) && y <= o.y_max.max(bb.y_max) };
 			assert!(has(&c.level_bbox[z], x, y) == expect2);
 		}
+		assert!(wf(&c.level_bbox[z], z));
 	}
 
 	// harness: kind=complete why="32 levels is the constant MAX_ZOOM_LEVEL" tier=thorough props=C15,C06 fn=TileBBoxPyramid::add_border timeout=1800
